@@ -34,6 +34,26 @@ ApplyScan(s, e) ==
      ELSE [ok |-> lost = {}, st |-> s,
            exp |-> [why |-> "lost_hit_in_scanner", overflow |-> FALSE, position |-> IF lost # {} THEN CHOOSE i \in lost : TRUE ELSE -1]]
 
+(* dscan2: the threshold of a live scanner is lowered after the first hit.  The rows of the blocks after the one that  *)
+(* produced the first hit were not scanned yet: none of their positions meeting the LOW threshold may be lost, and    *)
+(* nothing below the low threshold is reported.  (position p lies in row p % R of the striped table, block row \div bs) *)
+ApplyRethreshold(s, e) ==
+  LET W == e.K - 1
+      L == Len(e.seq)
+      n == NScores(L, Len(e.pssm))
+      R == NRows(L, e.C)
+      blk(p) == (p % R) \div e.bs
+      hits == {e.hits[q] : q \in 1..Len(e.hits)}
+      sc(i) == WindowScore(e.pssm, e.seq, i, W)
+      lost == IF e.first = <<>> THEN {}
+              ELSE {i \in 0..(n - 1) : blk(i) > blk(e.first[1]) /\ sc(i) >= e.lo /\ i \notin hits}
+      extra == {i \in hits : i >= n \/ sc(i) < e.lo}
+      firstok == e.first = <<>> \/ (e.first[1] < n /\ sc(e.first[1]) >= e.hi)
+  IN IF e.ret # "ok" THEN [ok |-> FALSE, st |-> s, exp |-> [why |-> "panic", overflow |-> FALSE]]
+     ELSE [ok |-> lost = {} /\ extra = {} /\ firstok, st |-> s,
+           exp |-> [why |-> IF lost # {} THEN "lost_hit_after_threshold_change" ELSE "hit_below_threshold", overflow |-> FALSE,
+                    position |-> IF lost # {} THEN CHOOSE i \in lost : TRUE ELSE -1]]
+
 ApplyScore(s, e) ==
   LET W == e.K - 1
       L == Len(e.seq)  M == Len(e.pssm)  n == NScores(L, M)
@@ -63,7 +83,7 @@ ApplyScore(s, e) ==
            note |-> IF ~discok THEN "discretised cells are not the exact round-up (+0/+1)"
                     ELSE IF ~satok THEN "8-bit score is not the saturating sum of the discretised cells" ELSE ""]
 
-Apply(s, e) == IF e.ev = "dscan" THEN ApplyScan(s, e) ELSE ApplyScore(s, e)
+Apply(s, e) == IF e.ev = "dscan" THEN ApplyScan(s, e) ELSE IF e.ev = "dscan2" THEN ApplyRethreshold(s, e) ELSE ApplyScore(s, e)
 
 TK == INSTANCE TraceKit
 Spec == TK!TKSpec
